@@ -46,12 +46,13 @@ def run(ctx):
     # one trace file, flushed per event: if the process dies inside neptune, vlib appends a `crash`
     # event to the history that led to it and the spec rejects it
     ctx.harness(binary, ["-plans", pdir, "-out", tfile, "-seed", ctx.seed, "-rand", ctx.q(48, 800),
-                         "-nstress", ctx.q(16, 300), "-nlife", ctx.q(112, 1120)],
+                         "-nstress", ctx.q(16, 300), "-nlife", ctx.q(112, 1120), "-nmicro", ctx.q(120, 3000),
+                         "-nlong", ctx.q(1, 4), "-nwide", ctx.q(4, 10)],
                 timeout=2400, traces=[tfile])
     alltr = ctx.load_traces(tfile)
     mode = lambda t: t[0]["src"].split(":")[0]
     steps = [t for t in alltr if mode(t) in ("plan", "rand")]
-    life = [t for t in alltr if mode(t) == "life"]
+    life = [t for t in alltr if mode(t) in ("life", "long", "wide")]
     stress = [t for t in alltr if mode(t) == "stress"]
     if len(steps) + len(life) + len(stress) != len(alltr):
         raise MachineryError("trace with an unknown src")
@@ -97,7 +98,14 @@ def run(ctx):
              "executor (released through that call's context if it queued behind itself), getters as events, a slow "
              "submitter (its context's first Done() is held until a `done` step / yields in free-running mode, so "
              "that the lane's answer - or skip - for a pre-ended context is there before the caller looks; such "
-             "callers are exempt from 'reply delivered' at a quiet point while held, never at the final one). Stop "
+             "callers are exempt from 'reply delivered' at a quiet point while held, never at the final one); the "
+             "dynamic kind of parameter / result / error (struct, pointer, int, string, slice, map, func, nil, typed "
+             "nil pointer; error value, pointer, wrapped, typed nil; the executor's own closed/full sentinels and "
+             "context.Canceled, DeadlineExceeded, q.ErrClosed, ErrSync returned by the callee as ITS error; typed "
+             "function signatures for the reflective call) with kind+identity in the trace, returned aggregates "
+             "scribbled over after rendering; one context shared by several calls; a lane filled to the brim at "
+             "Stop; 257 / 65537 calls in a row as one run-length `burst` event; MultiLines of 8..1025 lanes (IndexOf "
+             "boundary hashes, getters, life cycle; no calls); 120 caller-less Run/Stop micro rounds. Stop "
              "is never called on the driver: `stopr` is logged when it returns, a parked Stop is legal until the "
              "final quiescent point (consumers started, Stop called, every gate opened), where Final must hold",
         explanation="callee start/end with the lane index handed over, every caller's reply, and at each quiescent "
